@@ -140,17 +140,25 @@ def summary(I, cal, args, node, st):
     # a reference into a tracked map handed to a conversion that is transparent in the term domain: a re-borrow is the reference
     # still, anything else (clone, iter, to_vec, as_slice ...) reads what the cell holds now
     if len(args) == 1 and args[0][0] == 'cell' and args[0] in st.heap and mentioned(args[0], set()) and hirq.is_transparent(cal):
-        return [Out('val', args[0] if name in REBORROWS else st.heap[args[0]], st)]
+        if name in REBORROWS:
+            return [Out('val', args[0], st)]
+        src = node.get('recv') if node.get('k') == 'MethodCall' else (node.get('args') or [None])[0]
+        if not (name in ('into_iter', 'iter_mut') and str((src or {}).get('adj_ty') or (src or {}).get('ty') or '').startswith('&mut ')):
+            return [Out('val', st.heap[args[0]], st)]
+        # (an iterator of `&mut` items over the value: what is done through the items would not reach the map - no model)
     ns = set()
     for a in args:
         mentioned(a, ns)
     ns = {n for n in ns if st.heap.get(('assoc', n)) is not None}
-    if ns:
+    direct = any(is_map(a) or a[0] == 'mapentry' or a[0] == 'cell' for a in args if isinstance(a, tuple) and a)
+    if ns and not direct:
         # a function the interpreter has a model of (Option / Result combinators, iterator adaptors: closures they are given are
         # evaluated by the interpreter) or evaluates itself (an inlined workspace function) does to the map what that evaluation shows
+        # (handed on inside another value - Some(reference), a tuple -, not the map / entry / reference itself)
         r = absx.builtin_summary(I, cal, args, node, st)
         if r is not None:
             return r
+    if ns:
         if I.inline(cal):
             return None
         # no model: whatever this call does to the map(s) it is handed is not known
